@@ -58,6 +58,19 @@ def analyse_unit(unit, extra):
         okv = f in ("shell=1", "shell=1.0", "1", "1.0")
     inst("R-C09-volume-order", okv, "%s:Iq" % unit.name, "form = %s ; shell = %s" % (f[:50], s[:50]), k.fn.get("_line", 0),
          "form volume from form_volume, shell volume from shell_volume (or the same value for solid shapes)")
+    has_shell = "shell_volume" in unit.functions and unit.body(unit.functions["shell_volume"]) is not None
+    if vol_pars:
+        uses_shell = s.startswith("shell_volume(")
+        inst("R-C09-volume-order", uses_shell == has_shell, "%s:Iq" % unit.name,
+             "model %s shell_volume; kernel %s it" % ("defines" if has_shell else "does not define", "calls" if uses_shell else "does not call"),
+             k.fn.get("_line", 0), "hollow shapes are detected from the source (contains_shell_volume) and normalised by the shell volume")
+    # the 2-D function the model defines is the one the 2-D kernel calls
+    kx = Kernel(unit, "Iqxy")
+    called = {c_callee(c) for c in kx.model_calls(("Iq", "Fq", "Iqac", "Iqabc", "Iqxy"))}
+    defined = [fn_ for fn_ in ("Iqabc", "Iqac", "Iqxy") if fn_ in unit.functions and unit.body(unit.functions[fn_]) is not None]
+    want = set(defined[:1]) if defined else ({"Fq"} if meta.get("have_Fq") else {"Iq"})
+    inst("R-C09-args", called == want, "%s:Iqxy" % unit.name, "2-D kernel calls %s; model defines %s" % (sorted(called), defined or "no 2-D function"),
+         kx.fn.get("_line", 0), "find_xy_mode selects the model's own 2-D function")
     # argument marshalling at every model call site, all three kernels
     for variant in ("Iq", "Iqxy", "Imagnetic"):
         try:
